@@ -89,7 +89,7 @@ def main():
         })
     m = {
         "version": 1,
-        "setup_cmd": f"cd /verif/harness && {ENV} go build -tags verif -o /verif/.build/pmon ./cmd/pmon && {ENV} go build -tags verif -race -o /verif/.build/pmon-race ./cmd/pmon && {ENV} go test -tags verif -run '^$' -fuzz '^FuzzC03$' -fuzztime 200x ./props && {ENV} go test -tags verif -run '^$' -fuzz '^FuzzC04$' -fuzztime 200x ./props",
+        "setup_cmd": f"cd /verif/harness && {ENV} go build -tags verif -gcflags=all=-d=checkptr -o /verif/.build/pmon ./cmd/pmon && {ENV} go build -tags verif -race -o /verif/.build/pmon-race ./cmd/pmon && {ENV} go test -tags verif -gcflags=all=-d=checkptr -run '^$' -fuzz '^FuzzC03$' -fuzztime 200x ./props && {ENV} go test -tags verif -gcflags=all=-d=checkptr -run '^$' -fuzz '^FuzzC04$' -fuzztime 200x ./props",
         "hooks": {
             "guard": "verif",
             "enable": "Go build tag: go build -tags verif (hook files ed25519/verif_hooks.go, tokens/type3/verif_hooks.go)",
